@@ -15,7 +15,7 @@ RULE = ('exhaustive part: every string of up to 4 (quick) / 5 (thorough) tokens 
         'fuzzing (atheris, thorough tier) of the same oracle; non-trivial = the string contains a bracket token and is not rejected at '
         'index 0')
 ASSUMPTIONS = [
-    '"never hangs" is decided by a generous per-case bound (10 s for at most 40 tokens), i.e. it detects super-linear blow-ups, not non-termination in general',
+    '"never hangs" is decided by a generous per-case bound (10 s for at most 40 tokens; a call still running after 30 s is interrupted by the runner watchdog and reported, and a shard stops after two such cases)',
     'a ValueError subclass (ProFormaFormatError or the ValueError of int()) is a clean rejection',
 ]
 
@@ -163,6 +163,49 @@ def check_deferred(case) -> Result:
     return r
 
 
+def check_massless(case) -> Result:
+    """vocabulary entries for which the bundled table lists neither a mass nor a formula: resolvable as names, but their mass and
+    composition are unknown - asking for either must raise, never count the modification as zero"""
+    import peptacular as pt
+    r = Result()
+    pos, v = case['position'], case['value']
+    s = POSITIONS[pos].format(v=v)
+    r.nontrivial = True
+    r.classes = [pos, case['db']]
+    ctx = dict(string=s, position=pos, value=v)
+    try:
+        a = pt.parse(s)
+    except ValueError as e:
+        r.fail('a syntactically valid string with an unresolvable modification parses (validation is deferred)',
+               f'C09/massless-entry/{pos}/rejected-at-parse', error=str(e)[:100], **ctx)
+        return r
+    for fn_name, fn in (('mass', lambda: pt.mass(a)), ('comp', lambda: pt.comp(a.copy())), ('mass-avg', lambda: pt.mass(a, monoisotopic=False)),
+                        ('mass-of-string', lambda: pt.mass(s))):
+        try:
+            got = fn()
+        except ValueError:
+            continue
+        except Exception as e:  # noqa
+            r.fail('asking for the mass or composition of an unresolvable modification raises a ValueError-family error',
+                   f'C09/massless-entry/{pos}/{fn_name}-raises-{type(e).__name__}', error=str(e)[:100], **ctx)
+            continue
+        r.fail('an entry without a tabulated mass or formula is not silently given one', f'C09/massless-entry/{pos}/{fn_name}-returns-a-value',
+               got=got if isinstance(got, float) else str(got)[:100], **ctx)
+    return r
+
+
+def massless_cases():
+    from pv import obo
+    for db, ents, pfx in (('psimod', obo.psimod(), ('MOD:', 'M:')), ('xlmod', obo.xlmod(), ('XLMOD:', 'X:'))):
+        for i, e in enumerate(ents):
+            if e.get('mono') is not None or e.get('comp_raw') is not None:
+                continue
+            for v in (pfx[0] + e['id'].split(':')[-1], pfx[1] + e['name']):
+                if any(c in v for c in '[]{}<>'):
+                    continue
+                yield {'position': ('residue', 'cterm', 'static-residue', 'interval', 'labile')[i % 5], 'value': v, 'db': db}
+
+
 def deferred_cases():
     for pos in POSITIONS:
         for v in BAD_VALUES:
@@ -271,10 +314,12 @@ def parts(tier):
     maxlen = 4 if tier == 'quick' else 5
     ps = [
         Part(name='tokens-exhaustive', kind='enum', check_case=check_tokens, cases=token_cases(maxlen), sharded=True, exhaustive=True,
-             distinct_by_construction=True, shards=16, space=f'every string of 0..{maxlen} tokens over the {len(TOKENS)}-token alphabet'),
-        Part(name='deferred-validation', kind='enum', check_case=check_deferred, cases=deferred_cases, exhaustive=True, shards=4,
+             distinct_by_construction=True, shards=16, case_limit=30, space=f'every string of 0..{maxlen} tokens over the {len(TOKENS)}-token alphabet'),
+        Part(name='deferred-validation', kind='enum', check_case=check_deferred, cases=deferred_cases, exhaustive=True, shards=4, case_limit=30,
              space=f'{len(POSITIONS)} modification positions x {len(BAD_VALUES)} unresolvable or malformed values'),
-        Part(name='strings', kind='hyp', check_case=check_string, strategy=string_strategy, examples=n),
+        Part(name='massless-entries', kind='enum', check_case=check_massless, cases=massless_cases, exhaustive=True, shards=8, case_limit=30,
+             space='every PSI-MOD / XLMOD entry without a tabulated mass or formula x {accession, prefixed name}, position rotating over 5 kinds'),
+        Part(name='strings', kind='hyp', check_case=check_string, strategy=string_strategy, examples=n, case_limit=30),
     ]
     if tier == 'thorough':
         ps.append(Part(name='atheris', kind='custom', check_case=check_string, run=run_atheris))
